@@ -445,7 +445,126 @@ func (c *Ctx) Bin(op Op, a, b *Term) *Term {
 			return c.Const0(w)
 		}
 	}
+	if (op == OpBvOr || op == OpBvXor || op == OpBvAdd) && w <= 64 {
+		if r := c.mergeSegs(a, b, w); r != nil {
+			return r
+		}
+	}
+	if op == OpBvShl && b.IsConst() && w <= 64 {
+		if sa, ok := c.segsOf(a, 0); ok {
+			var sh []seg
+			for _, s := range sa {
+				s.lo += int(b.V)
+				if s.lo+s.t.W > w {
+					sh = nil
+					break
+				}
+				sh = append(sh, s)
+			}
+			if sh != nil {
+				return c.fromSegs(sh, w)
+			}
+		}
+	}
+	if op == OpBvLshr && b.IsConst() && a.Op == OpConcat {
+		// shifting a concatenation right by whole parts
+		k := int(b.V)
+		return c.Zext(c.Extract(a, w-1, k), w)
+	}
 	return c.mk(&Term{Op: op, W: w, A: []*Term{a, b}})
+}
+
+// seg is a non-zero bit range [lo, lo+t.W) of a word that is zero elsewhere.
+type seg struct {
+	lo int
+	t  *Term
+}
+
+// segsOf views t as disjoint segments over zeros (zext, shl by constant, concat with zero constants).
+func (c *Ctx) segsOf(t *Term, depth int) ([]seg, bool) {
+	if depth > 12 {
+		return nil, false
+	}
+	switch t.Op {
+	case OpConst:
+		if t.V == 0 {
+			return nil, true
+		}
+		return nil, false
+	case OpZext:
+		if s, ok := c.segsOf(t.A[0], depth+1); ok && len(s) > 0 {
+			return s, true
+		}
+		return []seg{{0, t.A[0]}}, true
+	case OpBvShl:
+		if t.A[1].IsConst() {
+			s, ok := c.segsOf(t.A[0], depth+1)
+			if !ok {
+				return nil, false
+			}
+			k := int(t.A[1].V)
+			var out []seg
+			for _, x := range s {
+				if x.lo+k+x.t.W > t.W {
+					return nil, false
+				}
+				out = append(out, seg{x.lo + k, x.t})
+			}
+			return out, true
+		}
+	case OpConcat:
+		var out []seg
+		pos := t.W
+		for _, p := range t.A {
+			pos -= p.W
+			if p.IsConst() && p.V == 0 {
+				continue
+			}
+			out = append(out, seg{pos, p})
+		}
+		return out, true
+	}
+	return nil, false
+}
+
+func (c *Ctx) fromSegs(ss []seg, w int) *Term {
+	// sort by lo descending (high part first)
+	for i := 1; i < len(ss); i++ {
+		for j := i; j > 0 && ss[j].lo > ss[j-1].lo; j-- {
+			ss[j], ss[j-1] = ss[j-1], ss[j]
+		}
+	}
+	var parts []*Term
+	pos := w
+	for _, s := range ss {
+		hi := s.lo + s.t.W
+		if hi > pos {
+			return nil
+		}
+		if hi < pos {
+			parts = append(parts, c.Const0(pos-hi))
+		}
+		parts = append(parts, s.t)
+		pos = s.lo
+	}
+	if pos > 0 {
+		parts = append(parts, c.Const0(pos))
+	}
+	return c.Concat(parts...)
+}
+
+func (c *Ctx) mergeSegs(a, b *Term, w int) *Term {
+	sa, ok := c.segsOf(a, 0)
+	if !ok || len(sa) == 0 {
+		return nil
+	}
+	sb, ok := c.segsOf(b, 0)
+	if !ok || len(sb) == 0 {
+		return nil
+	}
+	all := append(append([]seg(nil), sa...), sb...)
+	r := c.fromSegs(all, w)
+	return r
 }
 
 // Const0 returns a zero of any width.
@@ -575,6 +694,26 @@ func (c *Ctx) Extract(a *Term, hi, lo int) *Term {
 		iw := a.A[0].W
 		if hi < iw {
 			return c.Extract(a.A[0], hi, lo)
+		}
+	case OpBvLshr:
+		if a.A[1].IsConst() && a.W <= 64 {
+			k := int(a.A[1].V)
+			if hi+k < a.W {
+				return c.Extract(a.A[0], hi+k, lo+k)
+			}
+			if lo+k >= a.W {
+				return c.Const0(w)
+			}
+		}
+	case OpBvShl:
+		if a.A[1].IsConst() && a.W <= 64 {
+			k := int(a.A[1].V)
+			if lo >= k {
+				return c.Extract(a.A[0], hi-k, lo-k)
+			}
+			if hi < k {
+				return c.Const0(w)
+			}
 		}
 	case OpBvAnd, OpBvOr, OpBvXor:
 		if w <= 8 { // byte extraction of bitwise ops distributes; keeps byte-level terms small
